@@ -132,8 +132,58 @@ def conc_jobs(tier):
     return js
 
 
+FTP_SEQS = [['file'], ['listing'], ['mlsd'], ['fail'], ['file', 'listing'], ['listing', 'file'],
+            ['file', 'fail', 'mlsd'], ['file', 'file']]
+
+
+def ftp_jobs(tier):
+    js = []
+    for compress in (False, True):
+        for digests in (True, False):
+            for roll in (None, 1):
+                if tier == 'quick' and not digests and roll:
+                    continue
+                rec = dict(compress=compress, digests=digests, cdx=True, log=(roll is None))
+                if roll:
+                    rec['max_size'] = roll
+                js.append(dict(kind='ftp', rec=rec,
+                               seqs=FTP_SEQS if tier != 'quick' else FTP_SEQS[:6]))
+    return js
+
+
+def run_ftp_job(job, judge_name=None):
+    judge = getattr(warcsuite, judge_name or JUDGE)
+    pid = PROPERTY if judge_name is None else judge_name[-3:].upper()
+    res = dict(evaluations=0, states=set(), transitions=0, outcomes={}, violations=[],
+               samples=[], distinct=set(), extra={'ftp_sessions': 0})
+    seen = set()
+    for seq in job['seqs']:
+        case, result = warcsuite.run_ftp_case(job['rec'], seq)
+        res['evaluations'] += 1
+        res['extra']['ftp_sessions'] += len(seq)
+        res['transitions'] += len(seq)
+        problems = list(judge(case, result)) + ['FTP session raised %s' % e
+                                                for e in result['errors']]
+        key = 'ftp files=%d problems=%d' % (len([f for f in result['files'] if '.warc' in f]),
+                                            len(problems))
+        res['outcomes'][key] = res['outcomes'].get(key, 0) + 1
+        res['states'].add(h64(('ftp', repr(job['rec']), tuple(seq))))
+        res['distinct'].add(h64(('ftp', repr(job['rec']), tuple(seq))))
+        for p in problems:
+            sig = '%s:%s:ftp' % (pid, warcsuite.classify(p))
+            if sig in seen or len(res['violations']) >= 4:
+                continue
+            seen.add(sig)
+            res['violations'].append(dict(
+                violation='%s [FTP sessions %s, rec %s]' % (p, '+'.join(seq), job['rec']),
+                signature=sig, kind='ftp', rec=job['rec'], seq=seq, judge=judge_name or JUDGE,
+                problem_class=warcsuite.classify(p)))
+    res['samples'].append(dict(kind='ftp sessions', rec=job['rec'], seqs=len(job['seqs'])))
+    return res
+
+
 def jobs(tier, seed, force_cdx=False):
-    js = conc_jobs(tier)
+    js = conc_jobs(tier) + ftp_jobs(tier)
     if tier == 'quick':
         cfgs = pairwise_configs()
         seqs = sequences(1, ORDER) + [list(p) for p in itertools.product(ORDER[:6] + ['junk'], repeat=2)]
@@ -187,6 +237,8 @@ def run_concurrent_job(job, judge_name=None):
 def run_job(job, judge_name=None):
     if job.get('kind') == 'concurrent':
         return run_concurrent_job(job, judge_name)
+    if job.get('kind') == 'ftp':
+        return run_ftp_job(job, judge_name)
     judge = getattr(warcsuite, judge_name or JUDGE)
     res = dict(evaluations=0, states=set(), transitions=0, outcomes={}, violations=[],
                samples=[], distinct=set(), extra={'records_parsed': 0})
@@ -228,6 +280,14 @@ def sig_ctx(cfg, seq, cls):
 
 
 def replay(rec):
+    if rec.get('kind') == 'ftp':
+        judge = getattr(warcsuite, rec['judge'])
+        case, result = warcsuite.run_ftp_case(rec['rec'], rec['seq'])
+        problems = list(judge(case, result)) + ['FTP session raised %s' % e
+                                                for e in result['errors']]
+        hit = [p for p in problems if warcsuite.classify(p) == rec['problem_class']]
+        return (rec['violation'] if hit else None), (rec['signature'] if hit else None), \
+            sorted(set(warcsuite.classify(p) for p in problems))
     if rec.get('kind') == 'concurrent':
         from vt.explore import Chooser
         judge = getattr(warcsuite, rec['judge'])
@@ -257,7 +317,8 @@ def describe(tier):
              '(configuration, sequence)' % (BITS, ORDER),
         bounds=dict(config_bits=len(BITS), max_seq_len=2 if tier == 'quick' else 3),
         assumptions=['strict reader vt/refs/warcread.py is the specification of a valid '
-                     'file', 'FTP sessions are covered by C17/C05-ftp jobs when present',
+                     'file', 'FTP sessions (file, LIST and MLSD listings, failed RETR) go through the real FTP '
+                     'client and FTPWARCRecorderSession',
                      'uuid4/date are replaced by deterministic counters (uniqueness is still '
                      'checked because ids are generated once per record by wpull)'],
     )
